@@ -67,10 +67,32 @@ def _outer_env(repo, outer):
 
 
 def _loop(worker):
+    """The batch loop of the worker: `while True:` advancing first_s, or `for first_s in range(start, stop, stride)`."""
     lps = [s for s in worker.node.body if isinstance(s, ast.While)]
+    if not lps:
+        lps = [s for s in worker.node.body if isinstance(s, ast.For) and loc_name(s.target) == "first_s"]
     if len(lps) != 1:
-        raise AnalysisError(f"{worker.qualname}: expected one while loop, found {len(lps)}")
+        raise AnalysisError(f"{worker.qualname}: expected one batch loop (while / for first_s in range), found {len(lps)}")
     return lps[0]
+
+
+def _range_of(worker, lp):
+    """(start, stop, step) expressions of a for-form batch loop (the range may be held in a local)."""
+    du = DefUse(worker.node)
+    it = expand_name(du, lp.iter, lp)
+    if not (isinstance(it, ast.Call) and call_name(it) == "range" and len(it.args) == 3):
+        raise AnalysisError(f"{worker.qualname}: batch loop iterates `{src(it)[:60]}`, not range(start, stop, stride)")
+    return it.args
+
+
+def _count_expr(worker):
+    """X in the worker's own `i_chunk == X - 1` (am I the last worker?) test; None when the worker has no such test."""
+    for t in find(worker.node, ast.Compare, nested=False):
+        if len(t.ops) == 1 and isinstance(t.ops[0], (ast.Eq, ast.GtE)) and loc_name(t.left) == "i_chunk":
+            r = t.comparators[0]
+            if isinstance(r, ast.BinOp) and isinstance(r.op, ast.Sub) and const_value(r.right) == (True, 1):
+                return r.left, t
+    return None, None
 
 
 def _run_iteration(repo, worker, env, facts, is_first, is_last, last_exact=False):
@@ -147,9 +169,96 @@ def _run_iteration(repo, worker, env, facts, is_first, is_last, last_exact=False
                 ev.env[f"{nm_}[0]"], ev.env[f"{nm_}[1]"] = ev.ev(s.value.args[0]), ev.ev(s.value.args[1])
             except Undecided:
                 pass
+    if isinstance(lp, ast.For):
+        snap["a"], snap["b"] = ev.env.get("ind2save[0]"), ev.env.get("ind2save[1]")
+        snap["last_s"] = ev.env.get("last_s")
+        try:
+            snap["stride"] = ev_pre.ev(_range_of(worker, lp)[2])
+        except Undecided as e_:
+            raise AnalysisError(f"{worker.qualname}: stride of the batch range not evaluable: {e_}")
     if "stride" not in snap:
         raise AnalysisError(f"{worker.qualname}: advance of first_s not found in the batch loop")
     return snap
+
+
+def _step_pre(worker, lp, pre, sx, ev):
+    """Run the statements before the batch loop; a local holding the batch range makes `<local>[0]` its start (the range is never empty:
+    its stop is at least start + 1 - checked by the stop rule)."""
+    rng_local = lp.iter.id if isinstance(lp, ast.For) and isinstance(lp.iter, ast.Name) else None
+    for s_ in pre:
+        sx.step(s_)
+        if rng_local and isinstance(s_, ast.Assign) and loc_name(s_.targets[0]) == rng_local and isinstance(s_.value, ast.Call) and call_name(s_.value) == "range" \
+                and len(s_.value.args) == 3:
+            try:
+                ev.env[f"{rng_local}[0]"] = ev.ev(s_.value.args[0])
+            except Undecided:
+                pass
+
+
+def _stop_rule(ctx, repo, worker, lp, pre, env, facts, interior, NB, T, S, fs0):
+    cnt, cnt_test = _count_expr(worker)
+    ms = [s for s in pre if isinstance(s, ast.Assign) and loc_name(s.targets[0]) == "max_s"]
+    CS = env.get("CHUNK_SIZE", Poly.sym("CHUNK_SIZE"))
+    want = {True: Poly.sym("_sr.ns"), False: (Poly.sym("i_chunk") + Poly.const(1)) * CS}
+
+    def eval_case(expr, is_last_worker):
+        def assume(t):
+            if cnt_test is not None and isinstance(t, ast.Compare) and norm(t) == norm(cnt_test):
+                return is_last_worker
+            return None
+        ev = Evaluator(env=dict(env), facts=facts.copy(), resolve=lambda x: repo.resolve_expr(worker, x), assume=assume)
+        sx = SymExec(ev, on_undecided="havoc")
+        _step_pre(worker, lp, pre, sx, ev)
+        return ev.ev(expr)
+
+    if isinstance(lp, ast.While):
+        bt = interior.get("break_test")
+        okb = isinstance(bt, ast.Compare) and isinstance(bt.ops[0], ast.GtE) and loc_name(bt.left) == "last_s" and loc_name(bt.comparators[0]) == "max_s"
+        bound_expr = ast.parse("max_s", mode="eval").body
+        slack = Poly.const(0)          # the loop goes on while last_s < max_s
+        where = ms[0] if ms else worker.node
+        shown = f"stop: {src(bt) if bt is not None else None}; {src(ms[0]) if ms else None}"
+    else:
+        stop = expand_name(DefUse(worker.node), _range_of(worker, lp)[1], lp)
+        okb = True
+        bound_expr = stop
+        if isinstance(stop, ast.Call) and call_name(stop) == "max" and len(stop.args) == 2:
+            # max(start + 1, X): at least one batch, then while first_s < X
+            try:
+                e0 = eval_case(stop.args[0], False)
+                e1 = eval_case(stop.args[1], False)
+            except Undecided as e_:
+                raise AnalysisError(f"bound of the batch range not evaluable: {e_}")
+            if fs0 is not None and e0 == fs0 + Poly.const(1):
+                bound_expr = stop.args[1]
+            elif fs0 is not None and e1 == fs0 + Poly.const(1):
+                bound_expr = stop.args[0]
+            else:
+                okb = False
+        slack = Poly.const(2) * T       # the loop goes on while first_s < max_s - 2*TAPER
+        where = ms[0] if ms else lp
+        shown = f"for first_s in range(.., {src(stop)[:80]}, ..); {src(ms[0]) if ms else ''}"
+    got = {}
+    okm = okb
+    if okb:
+        for lastw in (True, False):
+            try:
+                got[lastw] = eval_case(bound_expr, lastw) + slack
+            except Undecided as e_:
+                raise AnalysisError(f"stop bound of the batch loop not evaluable: {e_}")
+        okm = cnt is not None and got[True] == want[True] and got[False] == want[False]
+    detail = ""
+    if okb and not okm:
+        if cnt is None:
+            detail = (f": no worker is told it is the last one, every worker stops at {got.get(True)}; CHUNK_SIZE is the FLOOR of ns / nprocesses, so the last worker's range ends "
+                      "ns % nprocesses samples before the end of the file and the final (short) batch is never processed")
+        else:
+            detail = f": last worker runs to {got.get(True)} (expected {want[True]}), worker i to {got.get(False)} (expected {want[False]})"
+    ctx.check(okb and okm, worker, where, shown,
+              "worker i runs until its batches reach (i+1)*CHUNK_SIZE, the last worker to the end of the file",
+              "worker stop test is not `batches go on until (i+1)*CHUNK_SIZE, and to ns for the last worker`" + detail + " - a stretch between two workers / the tail is left unwritten",
+              key="stop", name_free=bool(detail))
+    ctx.shared["C06.count"] = cnt
 
 
 def d1_tiling(ctx):
@@ -167,10 +276,15 @@ def d1_tiling(ctx):
     pre = worker.node.body[: worker.node.body.index(lp)]
     seeks = {}
     cfgw = CFG(worker.node)
-    for s in pre:
-        sx0.step(s)
+    duw = DefUse(worker.node)
+    _step_pre(worker, lp, pre, sx0, ev0)
     nb = ev0.env.get("n_batch")
     fs0 = ev0.env.get("first_s")
+    if isinstance(lp, ast.For):
+        try:
+            fs0 = ev0.ev(_range_of(worker, lp)[0])
+        except Undecided as e_:
+            raise AnalysisError(f"start of the batch range not evaluable: {e_}")
     interior = _run_iteration(repo, worker, env, facts, False, False)
     first = _run_iteration(repo, worker, env, facts, True, False)
     last = _run_iteration(repo, worker, env, facts, False, True)
@@ -193,6 +307,12 @@ def d1_tiling(ctx):
                 okn = evn.ev(den) == NB and evn.ev(num) == Poly.sym("i_chunk") * env.get("CHUNK_SIZE", Poly.sym("CHUNK_SIZE"))
             except Undecided:
                 okn = False
+    if not okn and nb is not None:
+        try:
+            okn = nb == Evaluator(env=dict(env), facts=facts.copy(), resolve=lambda x: repo.resolve_expr(worker, x)).ev(
+                ast.parse("int(np.ceil(i_chunk * CHUNK_SIZE / NBATCH))", mode="eval").body)
+        except Undecided:
+            pass
     ctx.check(okn, worker, nbd[0] if nbd else worker.node, nbd[0] if nbd else "n_batch", "first batch index of worker i is ceil(i * CHUNK_SIZE / NBATCH)",
               f"`{src(nbd[0]) if nbd else '?'}`: n_batch is not ceil(i_chunk * CHUNK_SIZE / NBATCH) - with another divisor a batch between two workers is skipped or the start leaves the grid",
               key="n_batch")
@@ -222,13 +342,20 @@ def d1_tiling(ctx):
     for s in find(worker.node, ast.Call, nested=False):
         if call_name(s) == "seek" and isinstance(s.func, ast.Attribute):
             f = loc_name(s.func.value)
+            # the handle is identified by the file it was opened on, not by the name it is held in
+            if isinstance(s.func.value, ast.Name):
+                hd = duw.strong_reaching(f, s)
+                opened = {loc_name(d.value.args[0]) for d in hd if d.value is not None and isinstance(d.value, ast.Call) and call_name(d.value) == "open" and d.value.args}
+                if len(hd) >= 1 and len(opened) == 1 and all(d.value is not None and isinstance(d.value, ast.Call) and call_name(d.value) == "open" for d in hd):
+                    f = {"output_file": "fid", "ap_rms_file": "aid", "ap_time_file": "tid"}.get(opened.pop(), f)
             gs = []
             for t, pol in cfgw.guards(cfgw.node_for(s)):
                 gs += conjuncts(t, pol)
             is0 = any(isinstance(t, ast.Compare) and loc_name(t.left) == "i_chunk" and const_value(t.comparators[0]) == (True, 0) and pol == isinstance(t.ops[0], ast.Eq) for t, pol in gs)
             not0 = any(isinstance(t, ast.Compare) and loc_name(t.left) == "i_chunk" and const_value(t.comparators[0]) == (True, 0) and pol != isinstance(t.ops[0], ast.Eq) for t, pol in gs)
+            pos_expr = expand_name(duw, s.args[0], s) if isinstance(s.args[0], ast.Name) else s.args[0]
             try:
-                p = ev0.ev(s.args[0])
+                p = ev0.ev(pos_expr)
             except Undecided as e:
                 raise AnalysisError(f"seek argument not evaluable: {e}")
             if is0 or not0:
@@ -237,10 +364,9 @@ def d1_tiling(ctx):
                 # one seek for every worker: worker 0 has n_batch == 0 and first_s == 0
                 ev00 = Evaluator(env=dict(env, i_chunk=Poly.const(0)), facts=facts.copy(), resolve=lambda x: repo.resolve_expr(worker, x))
                 sx00 = SymExec(ev00, on_undecided="havoc")
-                for s_pre in pre:
-                    sx00.step(s_pre)
+                _step_pre(worker, lp, pre, sx00, ev00)
                 try:
-                    p00 = ev00.ev(s.args[0])
+                    p00 = ev00.ev(pos_expr)
                 except Undecided as e:
                     raise AnalysisError(f"seek argument not evaluable for worker 0: {e}")
                 seeks[(f, True)] = (p00, s)
@@ -298,19 +424,8 @@ def d1_tiling(ctx):
         okrms = (r1[0] - r0[0]) == nbp * env.get("ncv", Poly.sym("ncv")) * rn and (t1[0] - t0[0]) == nbp * rn
     ctx.check(okrms, worker, r1[1] if r1 else worker.node, f"rms seek delta {(r1[0] - r0[0]) if r1 and r0 else None}", "one RMS row (ncv float32) and one time stamp per batch index",
               "RMS / time seeks are not n_batch rows of ncv (resp. 1) float32 values", key="rms-seek")
-    # stop test
-    bt = interior.get("break_test")
-    okb = isinstance(bt, ast.Compare) and isinstance(bt.ops[0], ast.GtE) and loc_name(bt.left) == "last_s" and loc_name(bt.comparators[0]) == "max_s"
-    ms = [s for s in pre if isinstance(s, ast.Assign) and loc_name(s.targets[0]) == "max_s"]
-    okm = False
-    if ms and isinstance(ms[0].value, ast.IfExp):
-        ie = ms[0].value
-        evx = Evaluator(env=dict(env), facts=facts.copy())
-        okm = src(ie.body).endswith(".ns") and norm(ie.test) == norm(ast.parse("i_chunk == n_chunk - 1", mode="eval").body) and \
-            evx.ev(ie.orelse) == (Poly.sym("i_chunk") + Poly.const(1)) * env.get("CHUNK_SIZE", Poly.sym("CHUNK_SIZE"))
-    ctx.check(okb and okm, worker, ms[0] if ms else worker.node, f"stop: {src(bt) if bt is not None else None}; {src(ms[0]) if ms else None}",
-              "worker i runs until its batches reach (i+1)*CHUNK_SIZE, the last worker to the end of the file",
-              "worker stop test is not last_s >= max_s with max_s = (i+1)*CHUNK_SIZE / ns for the last worker: a stretch between two workers is left unwritten", key="stop")
+    # stop test: worker i goes on while the NEXT start is below max_s - 2*TAPER, max_s = (i+1)*CHUNK_SIZE, ns for the last worker
+    _stop_rule(ctx, repo, worker, lp, pre, env, facts, interior, NB, T, S, fs0)
     cs = env.get("CHUNK_SIZE")
     ctx.check(cs is not None and "sr.ns" in cs.canon() and "nprocesses" in cs.canon(), outer, outer.node, f"CHUNK_SIZE = {cs}", "the file is divided evenly among the workers",
               "CHUNK_SIZE is not ns / nprocesses", key="chunk-size")
@@ -512,7 +627,15 @@ def d4_fanout(ctx):
     okr = isinstance(rng, ast.Call) and call_name(rng) == "range" and len(rng.args) == 1
     n_expr = rng.args[0] if okr else None
     ic, nc_ = b.bound.get("i_chunk"), b.bound.get("n_chunk")
+    cnt, _ = _count_expr(worker)
+    if cnt is not None and isinstance(cnt, ast.Name) and cnt.id in worker.params:
+        nc_ = b.bound.get(cnt.id)       # the count is a parameter of the worker: what the fan-out passes
+    elif cnt is not None:
+        nc_ = cnt                        # the count is read from the enclosing scope
     ok = okr and loc_name(ic) == loc_name(g.target) and nc_ is not None and norm(nc_) == norm(n_expr) and not g.ifs
+    if cnt is None and "n_chunk" not in worker.params:
+        # the worker never asks whether it is the last one (D1 'stop' speaks about that): only the index range is checked here
+        ok = okr and loc_name(ic) == loc_name(g.target) and not g.ifs
     ctx.check(ok, outer, fan, f"my_function({src(ic) if ic else None}, {src(nc_) if nc_ else None}) for {src(g.target)} in {src(rng)}", "workers 0..n-1 each know the same worker count n",
               "the worker index range and the worker count passed to the workers disagree: the last worker is never told it is last (tail unwritten) or a worker is missing", key="fanout")
     par = None
